@@ -555,6 +555,11 @@ func replayFile(path, repo, verif string) int {
 	}
 	v := Violation{Kind: rf.Kind, Msg: rf.Msg}
 	fmt.Printf("replay %s: native result %s %s (expected %s %q at %s)\n", rf.Harness, res[0].Kind, res[0].Detail, rf.Kind, rf.Msg, rf.Site)
+	for _, l := range strings.Split(out, "\n") {
+		if strings.HasPrefix(l, "VERIF-DEBUG ") {
+			fmt.Println(l)
+		}
+	}
 	if res[0].Kind == "missing" {
 		fmt.Println(lastLines(out, 20))
 		return 2
